@@ -352,3 +352,33 @@ func (h *Head) Get(name string) []string {
 	}
 	return r
 }
+
+// NamesExtensionOutsideQuotes reports whether name occurs as the name of a list element
+// (the part before the first ';' of a comma-separated element) once every quoted-string
+// (RFC 7230 lexing, backslash escapes honoured) has been removed.  When it does not, no
+// reasonable parser can consider the extension offered.
+func NamesExtensionOutsideQuotes(values []string, name string) bool {
+	for _, v := range values {
+		var b strings.Builder
+		inQ := false
+		for i := 0; i < len(v); i++ {
+			c := v[i]
+			switch {
+			case inQ && c == '\\':
+				i++
+			case c == '"':
+				inQ = !inQ
+				b.WriteByte(' ')
+			case !inQ:
+				b.WriteByte(c)
+			}
+		}
+		for _, el := range strings.Split(b.String(), ",") {
+			n, _, _ := strings.Cut(el, ";")
+			if FoldASCII(trimOWS(n)) == FoldASCII(name) {
+				return true
+			}
+		}
+	}
+	return false
+}
